@@ -142,6 +142,21 @@ def run(pid, tier, seed):
                     verdict.violation("driver-crash:rc%d" % r.returncode, "drv_names died in env %r: %s" % ((td, tz_, lt), r.stderr[-400:]))
                 continue
             f.write(r.stdout)
+    # ---- a long history of failed loads (names that resolve to directories, devices, missing files - each a cache key of its
+    # own) in a process that may hold few descriptors, then names never asked before: every row is judged as usual
+    many = [b"America" + b"/" * k for k in range(1, 60)] + [b"Dir" + b"/" * k for k in range(1, 60)] + [b"/tmp", b"/", b"/usr"] + \
+           [b"Nope/Missing%d" % k for k in range(40)] + [b"Garbage", b"Truncated", b"Unreadable"] + [b"./" * k + b"Dir" for k in range(1, 40)]
+    nf_fd = os.path.join(work, "names_fd.txt")
+    open(nf_fd, "w").write("".join(n.hex() + "\n" for n in many + [b"Europe/Paris", b"America/New_York", b"X", b"file:X", b"Asia/Tokyo"]))
+    with open(out, "a") as f:
+        e = {k: v for k, v in os.environ.items() if k not in ("TZDIR", "TZ", "LOCALTIME")}
+        e.update({"ASAN_OPTIONS": "detect_leaks=0", "TZDIR": tzdir, "VT_FD_LIMIT": "48", "VT_NO_LOCAL": "1"})
+        r = subprocess.run([exe, nf_fd, "--drop-privileges"], env=e, cwd=fx, stdout=subprocess.PIPE, stderr=subprocess.PIPE, text=True, timeout=300)
+        nproc += 1
+        if r.returncode != 0:
+            verdict.violation("driver-crash:rc%d" % r.returncode, "drv_names died in the descriptor-limited process: %s" % r.stderr[-400:])
+        else:
+            f.write(r.stdout)
     # ---- processes that change their environment between loads (setenv/unsetenv of TZDIR, TZ, LOCALTIME): the
     # value in force at the time of each call decides; phase-2 names were never asked for before (the name
     # cache legitimately keeps earlier answers)
